@@ -711,7 +711,7 @@ def slice_resolution(ctx):
                     key=f'C03.d-slice|_process_slice|slice-resolution|{T.show(v)}')
     # step other than 1/None refused
     rs = [e for e in events(fa, 'raise') if e.under(isl)]
-    ok = any(any(c == T.cmp('not in', T.attr(s, 'step'), T.tup([C(1), T.NONE])) and p for c, p in e.guards) for e in rs)
+    ok = any(e.under(T.cmp('not in', T.attr(s, 'step'), T.tup([C(1), T.NONE]))) for e in rs)
     ctx.check(ok, R, 'slice.step', ctx.where(fa), found=[T.show(e.exc) for e in rs], expected='raise when step not in (1, None)')
     # scalar
     sv = T.ite(T.cmp('<', s, C(0)), T.add(s, n), s)
